@@ -499,7 +499,9 @@ class MuxBody(Body):
         return super().__getattr__('flush')()
 
     def close(self):
-        self._stream.close()
+        # The stream is shared by all responses (--output-document): it
+        # must stay open for the next one.
+        self._stream.flush()
         return super().__getattr__('close')()
 
 
